@@ -6,6 +6,7 @@ being loaded through the same barrier at the same time, for any number of gorout
 -/
 import GoZero.C06.Calls
 import GoZero.C06.Instances
+import GoZero.C06.Decode
 namespace GoZero.C06.Calls
 
 variable {α : Type}
@@ -108,6 +109,27 @@ theorem returning_leader_same_schedule :
     ((runA (fun _ => false) (fun _ => 0) wQ St.init [0, 1, 0, 0, 1, 3, 3, 3]).map
       fun s => (s.pc 0, s.pc 1, s.got 0, s.got 1, s.pc 3, s.got 3)) = some (4, 4, some (0, 0), some (0, 0), 4, some (0, 1)) := by
   rfl
+
+/-! ### round 5e: one decoder on every decode path -/
+
+/-- if the follower path and the hit path decode with UseNumber (the code: Tie.tie_decoders), then for EVERY
+integer — however large — the leader, the followers of its flight and later cache hits hold the same value (same
+digits, same kind of number): every reader derives the same primary cache key from an index entry. -/
+theorem all_paths_yield_the_same_number (dec : Decode.Path → Decode.Decoder)
+    (hf : dec .follower = .useNumber) (hh : dec .hit = .useNumber) (n : Int) (p p' : Decode.Path) :
+    Decode.valueOn dec p n = Decode.valueOn dec p' n ∧ Decode.valueOn dec p n = .exact n := by
+  cases p <;> cases p' <;> simp [Decode.valueOn, Decode.decodeInt, hf, hh]
+
+/-- WITNESS (seeded change C06-10): with encoding/json's plain Unmarshal on the follower path a sharing reader
+holds a different value than the leader and than a cache hit, for every integer. -/
+theorem plain_decoder_on_the_follower_path_changes_the_value (n : Int) :
+    Decode.valueOn (fun p => if p = .follower then .plain else .useNumber) .follower n
+      ≠ Decode.valueOn (fun p => if p = .follower then .plain else .useNumber) .leader n
+    ∧ Decode.valueOn (fun p => if p = .follower then .plain else .useNumber) .follower n
+      ≠ Decode.valueOn (fun p => if p = .follower then .plain else .useNumber) .hit n := by
+  simp [Decode.valueOn, Decode.decodeInt]
+
+example : Decode.valueOn (fun _ => .useNumber) .follower 9007199254740993 = .exact 9007199254740993 := by decide
 
 /-! ### the caller's options reach every node (for every constructor and every Options value) -/
 
